@@ -1486,6 +1486,9 @@ func storesToCell(a *ssa.Alloc) []*ssa.Store {
 // retVal returns the i-th result of a return, looking through the result
 // cells go/ssa introduces in functions with defer ("*t2 = v; rundefers; t9 = *t2; return t9").
 func retVal(ret *ssa.Return, i int) ssa.Value {
+	if i < 0 || i >= len(ret.Results) {
+		return nil
+	}
 	v := ret.Results[i]
 	u, ok := v.(*ssa.UnOp)
 	if !ok || u.Op != token.MUL {
